@@ -174,10 +174,14 @@ def run(tier, seed, only=None):
             {n: (lambda o: o) for n in sc.out_names}, timeout, fixed=fixed)
     # ------------------------------------------------ drag estimates under length scaling (Reynolds number per length inversely)
     s = K.surface(2, 3, True, with_viscous=True, with_wave=True)
-    sc = SymComp(A + "viscous_drag", "ViscousDrag", surface=s, with_viscous=True)
-    ins = sc.inputs()
-    law(rep, "viscous drag coefficient is invariant under length scaling with re/k", sc, ins,
-        scaled(ins, {"re": ONE / k, "widths": k, "lengths": k, "lengths_spanwise": k, "S_ref": k * k}), {"CDv": lambda o: o}, timeout, pos, fixed=fixed)
+    # every laminar-fraction branch of the skin-friction model: with transition (default), fully turbulent, fully laminar
+    for kl in (0.05, 0.0, 1.0):
+        skl = dict(s, k_lam=kl)
+        sc = SymComp(A + "viscous_drag", "ViscousDrag", surface=skl, with_viscous=True)
+        ins = sc.inputs()
+        law(rep, "viscous drag coefficient is invariant under length scaling with re/k [k_lam=%g]" % kl, sc, ins,
+            scaled(ins, {"re": ONE / k, "widths": k, "lengths": k, "lengths_spanwise": k, "S_ref": k * k}), {"CDv": lambda o: o}, timeout, pos,
+            fixed=dict(fixed, **{"re[0]": 2.0e6, "Mach_number[0]": 0.5, "S_ref[0]": 10.0}, **{"t_over_c[%d]" % e: 0.12 for e in range(2)}))
     sc = SymComp(A + "wave_drag", "WaveDrag", surface=s, with_wave=True)
     ins = sc.inputs()
     rep.encode(type(sc.comp))
